@@ -303,6 +303,24 @@ func genC11(seed uint64, withSpec bool) *Scenario {
 		op := specOp(r)
 		op.Kind = KSpec
 		op.Fault = &Fault{Kind: "checker-panic"}
+		if r.Chance(450) {
+			// the SpecValidator object itself goes on being used after the panic (for the same and for another document)
+			if op.COE == nil {
+				t := r.Chance(500)
+				op.COE = &t
+			}
+			op.ReuseSV = true
+			add(op, "victim")
+			again := op
+			again.Fault, again.OrderSeed = nil, orderSeedFor(r)
+			add(again, "suffix")
+			if r.Chance(500) {
+				other := specOp(r)
+				other.Kind, other.COE, other.ReuseSV = KSpec, op.COE, true
+				add(other, "suffix")
+			}
+			break
+		}
 		add(op, "victim")
 	case x < 50:
 		m := formatSchema(g, r.Range(1, 3))
